@@ -152,6 +152,10 @@ func (e *Env) lookupName(name string) (Term, bool) {
 	}
 	if p, ok := e.names["&"+name]; ok {
 		// escaping local: current content of its cell
+		if p.Sort == "LOCAL" {
+			el := derefT(p.T)
+			return Term{S: e.c.get(e.st, strings.TrimPrefix(p.S, "LOCAL:")), Sort: e.c.sortOf(el), T: el}, true
+		}
 		return e.c.loadPtr(e.st, p, derefT(p.T)), true
 	}
 	if t, ok := e.params[name]; ok {
@@ -501,12 +505,23 @@ func (e *Env) selField(x Term, i int) Term {
 		}
 		switch ft.Underlying().(type) {
 		case *types.Struct, *types.Array:
-			fn := "sub_" + typeKey(st) + "_" + sanitize(su.Field(i).Name())
-			c.eng.declareFun(fn, "(Int) Int")
-			return Term{S: fmt.Sprintf("(%s %s)", fn, x.S), Sort: SInt, T: types.NewPointer(ft)}
+			return Term{S: subRef(x.S, i), Sort: SInt, T: types.NewPointer(ft)}
 		}
 		reg, _ := c.fieldRegion(st, i)
-		return Term{S: fmt.Sprintf("(select %s %s)", c.get(e.st, reg), x.S), Sort: c.sortOf(ft), T: ft}
+		res := Term{S: fmt.Sprintf("(select %s %s)", c.get(e.st, reg), x.S), Sort: c.sortOf(ft), T: ft}
+		if strings.HasSuffix(c.get(e.st, reg), "@0") && !strings.Contains(x.S, "q_") {
+			// heap invariant of the entry state: stored references are allocated
+			switch ft.Underlying().(type) {
+			case *types.Pointer, *types.Slice, *types.Map:
+				key := "tf:" + res.S
+				if !c.declared[key] {
+					c.declared[key] = true
+					es := &State{alloc: "alloc@0"}
+					c.typeFacts(es, res, ft)
+				}
+			}
+		}
+		return res
 	}
 	su, ok := x.T.Underlying().(*types.Struct)
 	if !ok {
@@ -748,11 +763,7 @@ func (c *FnCtx) modLocs(env *Env, n *Node) []ModLoc {
 			if p.T == nil {
 				c.fail("modifies *%s: untyped", n.Args[0])
 			}
-			var out []ModLoc
-			for _, r := range c.regionsOfPointee(derefT(p.T)) {
-				out = append(out, ModLoc{r, p.S})
-			}
-			return out
+			return c.pointeeLocs(derefT(p.T), p.S)
 		}
 	case "sel":
 		x := env.eval(n.Args[0], "")
@@ -803,6 +814,18 @@ func (c *FnCtx) modLocs(env *Env, n *Node) []ModLoc {
 					case "elems":
 				gt := env.resolveType(typeArg(n.Args[1]))
 				return []ModLoc{{c.elemRegion(gt), ""}}
+			case "fieldof":
+				gt := env.resolveType(typeArg(n.Args[1]))
+				path, ok := fieldPath(gt, env.pkg, n.Args[2].Name)
+				if !ok || len(path) != 1 {
+					c.fail("fieldof(%s, %s): no such direct field", typeArg(n.Args[1]), n.Args[2].Name)
+				}
+				ft := gt.Underlying().(*types.Struct).Field(path[0]).Type()
+				var out []ModLoc
+				for _, r := range c.regionsOfValueAt(gt, path[0], ft) {
+					out = append(out, ModLoc{r, ""})
+				}
+				return out
 			}
 		}
 	case "id":
@@ -820,4 +843,36 @@ func (c *FnCtx) modRegions(env *Env, n *Node) []string {
 		out = append(out, l.Region)
 	}
 	return out
+}
+
+// subRef: the derived reference of the by-value aggregate field i of the object at ref
+// (negative, hence disjoint from every ordinary reference; injective in (ref, i)).
+func subRef(ref string, i int) string {
+	return fmt.Sprintf("(- (+ (* 1024 %s) %d))", ref, i+1)
+}
+
+// pointeeLocs: all (region, ref) locations making up the object of type t at ref.
+func (c *FnCtx) pointeeLocs(t types.Type, ref string) []ModLoc {
+	switch u := t.Underlying().(type) {
+	case *types.Struct:
+		if inner, ok := isWrapper(t); ok {
+			return c.pointeeLocs(inner, ref)
+		}
+		var out []ModLoc
+		for i := 0; i < u.NumFields(); i++ {
+			ft := u.Field(i).Type()
+			switch ft.Underlying().(type) {
+			case *types.Struct, *types.Array:
+				out = append(out, c.pointeeLocs(ft, subRef(ref, i))...)
+			default:
+				r, _ := c.fieldRegion(t, i)
+				out = append(out, ModLoc{r, ref})
+			}
+		}
+		return out
+	case *types.Array:
+		return []ModLoc{{c.elemRegion(u.Elem()), ref}}
+	default:
+		return []ModLoc{{c.cellRegion(t), ref}}
+	}
 }
